@@ -237,6 +237,35 @@ class JnpShim:
         return self._real.isnan(a)
 
 
+F64 = z3.Float64()
+
+
+def _to_f64(x, dt):
+    """exact embedding of a bool / int8..int32 / uint8 / float32 scalar (python value or z3 term) into z3 Float64"""
+    dt = np.dtype(dt)
+    if not is_sym(x):
+        return z3.FPVal(float(x), F64)
+    if dt.kind == "b":
+        return z3.If(x, z3.FPVal(1.0, F64), z3.FPVal(0.0, F64))
+    if dt.kind == "i":
+        return z3.fpSignedToFP(z3.RNE(), x, F64)
+    if dt.kind == "u":
+        return z3.fpUnsignedToFP(z3.RNE(), x, F64)
+    return z3.fpFPToFP(z3.RNE(), x, F64)
+
+
+def num_eq(x, dx, y, dy):
+    """numpy's `==` on two scalars of possibly different dtypes: both are promoted (here: embedded exactly into float64, which holds
+    every bool/int<=32/float32 value), so int 1 == float 1.0, int 1 != float 1.5, True == 1, NaN != NaN"""
+    dx, dy = np.dtype(dx), np.dtype(dy)
+    if dx == dy:
+        return J.s_cmp("eq", x, y, dx)
+    if not is_sym(x) and not is_sym(y):
+        with np.errstate(all="ignore"):
+            return bool(np.array(x, dtype=dx) == np.array(y, dtype=dy))
+    return z3.fpEQ(_to_f64(x, dx), _to_f64(y, dy))
+
+
 class NpShim:
     """replacement for the `np` name inside jumanji.testing.pytrees"""
 
@@ -245,7 +274,10 @@ class NpShim:
 
     @staticmethod
     def asarray(x, *a, **k):
-        return x if isinstance(x, SymArr) else np.asarray(x, *a, **k)
+        if isinstance(x, SymArr):
+            dt = k.get("dtype", a[0] if a else None)
+            return x.astype(dt) if dt is not None and np.dtype(dt) != x.dtype else x
+        return np.asarray(x, *a, **k)
 
     @staticmethod
     def array_equal(a, b):
@@ -255,9 +287,13 @@ class NpShim:
             if tuple(sa) != tuple(sb):
                 return False
             a = a if isinstance(a, SymArr) else SymArr(SV(np.asarray(a), np.asarray(a).dtype))
-            b = b if isinstance(b, SymArr) else SymArr(SV(np.asarray(b).astype(a.dtype), a.dtype))
+            b = b if isinstance(b, SymArr) else SymArr(SV(np.asarray(b), np.asarray(b).dtype))
             if a.dtype != b.dtype:
-                b = b.astype(a.dtype)
+                # numpy compares after promotion, it does NOT cast one side to the other's dtype
+                acc = True
+                for x, y in zip(a.sv.obj().reshape(-1), b.sv.obj().reshape(-1)):
+                    acc = J.b_and(acc, num_eq(x, a.dtype, y, b.dtype))
+                return SymArr(_scalar_sv(acc)) if is_sym(acc) else np.bool_(bool(acc))
             return (a == b).all()
         return np.array_equal(a, b)
 
